@@ -45,6 +45,7 @@ type Cfg struct {
 	ErrKind int    `json:"-"`      // what a failed write returns: 0 plain error, 1 temporary net.Error, 2 timeout net.Error
 	Dest    int    `json:"-"`      // destination variant (broadcast / unicast / scoped link-local / scoped multicast)
 	BigReq  int    `json:"-"`      // octets of vendor information added to the request (0: none): requests beyond one Ethernet frame
+	XidMap  int    `json:"-"`      // how the transaction ids appear on the wire (ordinary values, all zeroes / all ones)
 	RFault  bool   `json:"rfault"` // the schedule may make a read on the open connection fail
 	ReadErrKind int `json:"-"`     // what ReadFrom returns once the connection is closed, and what a failed read on the open connection returns
 	Raw     bool   `json:"-"`      // DHCPv4 only: the client runs over its raw-socket layer (BroadcastRawUDPConn): datagrams arrive and leave as IPv4/UDP frames
@@ -861,7 +862,22 @@ func (f *fakeConn) ReadFrom(b []byte) (int, net.Addr, error) {
 			f.mu.Unlock()
 			f.s.record("loop", "Rx", d.id)
 			n := copy(b, d.b)
-			return n, &net.UDPAddr{IP: net.IPv4(10, 0, 0, 1), Port: 67}, nil
+			// where a datagram comes from is not what identifies it: the server's port or a relay's, another address than
+			// the one written to, an address that is not a UDP address (a transport of the caller's own)
+			var from net.Addr
+			switch (uint64(d.id)*2654435761 + uint64(f.s.cfg.ReadErrKind)) >> 3 % 6 {
+			case 0, 1:
+				from = &net.UDPAddr{IP: net.IPv4(10, 0, 0, 1), Port: 67}
+			case 2:
+				from = &net.UDPAddr{IP: net.IPv4(10, 0, 0, 1), Port: 6767}
+			case 3:
+				from = &net.UDPAddr{IP: net.ParseIP("fe80::1"), Port: 547, Zone: "eth3"}
+			case 4:
+				from = &net.UDPAddr{IP: net.IPv4(192, 168, 0, 254), Port: 68}
+			default:
+				from = &net.IPAddr{IP: net.IPv4(10, 0, 0, 1)}
+			}
+			return n, from, nil
 		}
 		f.mu.Unlock()
 		<-f.wake
@@ -967,7 +983,8 @@ func (r *rawAdapter) frame(payload []byte, proto byte, dport int) []byte {
 	c := csum16(f[:ihl*4])
 	f[10], f[11] = byte(c>>8), byte(c)
 	u := f[ihl*4:]
-	u[0], u[1] = 0, 67
+	sport := []int{67, 67, 6767, 68, 49152 + int(h%1000)}[h>>4%5] // servers and relays answer from whatever port they like
+	u[0], u[1] = byte(sport>>8), byte(sport)
 	u[2], u[3] = byte(dport>>8), byte(dport)
 	u[4], u[5] = byte((8+len(payload))>>8), byte(8+len(payload))
 	copy(u[8:], payload)
